@@ -632,6 +632,90 @@ Definition compute_mutation_parents (t : tables) : res tables :=
   end.
 
 (* ---------------------------------------------------------------------- *)
+(* 7201 / 7279: individual topological sort (TableCollection.sort_individuals) *)
+(* ---------------------------------------------------------------------- *)
+Definition E_INDIVIDUAL_PARENT_CYCLE : Z := 11.
+
+Definition node_set_ind (nd : node) (x : Z) : node := mkNode (n_flags nd) (n_time nd) (n_pop nd) x (n_md nd).
+Definition ind_set_parents (r : individual) (ps : list Z) : individual :=
+  mkInd (i_flags r) (i_loc r) ps (i_md r).
+Definition set_inds_nodes t inds nodes :=
+  mkTables (t_L t) nodes (t_edges t) (t_emd t) (t_eoff t) (t_sites t) (t_muts t) (t_migs t) (t_gmd t)
+           (t_goff t) inds (t_pops t) (t_index t).
+
+(* the individual / node part of check_integrity(0): 10797 and 10455 *)
+Definition check_inds (t : tables) : bool :=
+  let n := zlen (t_inds t) in
+  forallb (fun jr => forallb (fun p => (p =? NULL) || (in_range p n && negb (p =? fst jr)))
+                             (i_parents (snd jr))) (indexed 0 (t_inds t)) &&
+  forallb (fun nd => (NULL <=? n_ind nd) && (n_ind nd <? n)) (t_nodes t).
+
+(* 7229-7233: incoming_edge_count[parents[i]]++ over the flat parents column *)
+Fixpoint count_parents (ps : list Z) (c : list Z) : res (list Z) :=
+  match ps with
+  | [] => Ok c
+  | p :: tl => if p =? NULL then count_parents tl c
+               else do x <- get c p; do c' <- set c p (x + 1); count_parents tl c'
+  end.
+
+(* 7236-7241: for (i = n-1; i >= 0; i--) if (count[i] == 0) order[insertion++] = i *)
+Fixpoint initial_todo (k : nat) (c : list Z) : res (list Z) :=
+  match k with
+  | O => Ok []
+  | S k' => do x <- get c (Z.of_nat k'); do rest <- initial_todo k' c;
+            Ok (if x =? 0 then Z.of_nat k' :: rest else rest)
+  end.
+
+(* 7249-7261: the parents of the individual being processed; newly free parents are appended
+   to the queue [q] *)
+Fixpoint relax (ps : list Z) (c q : list Z) : res (list Z * list Z) :=
+  match ps with
+  | [] => Ok (c, q)
+  | p :: tl => if p =? NULL then relax tl c q
+               else do x <- get c p; do c' <- set c p (x - 1);
+                    relax tl c' (if x - 1 =? 0 then q ++ [p] else q)
+  end.
+
+(* 7246-7263: while (current_todo < todo_insertion_point); [done] = order[0..current),
+   [pending] = order[current..insertion) *)
+Fixpoint topo_loop (fuel : nat) (inds : list individual) (c done pending : list Z)
+  : res (list Z * list Z) :=
+  match fuel with
+  | O => Fuel
+  | S f =>
+      match pending with
+      | [] => Ok (done, c)
+      | j :: rest =>
+          do r <- get inds j;
+          do cq <- relax (i_parents r) c rest;
+          topo_loop f inds (fst cq) (done ++ [j]) (snd cq)
+      end
+  end.
+
+(* 7201: traversal order, or the cycle error of 7266-7271 *)
+Definition topological_order (inds : list individual) : res (list Z) :=
+  let n := length inds in
+  do c0 <- count_parents (flat_map i_parents inds) (repeat 0 n);
+  do todo <- initial_todo n c0;
+  do r <- topo_loop (S n) inds c0 [] todo;
+  if existsb (fun x => 0 <? x) (snd r) then Err E_INDIVIDUAL_PARENT_CYCLE else Ok (fst r).
+
+Definition remap_id (idmap : list Z) (x : Z) : res Z := if x =? NULL then Ok NULL else get idmap x.
+
+(* 7279: rows are re-added for i = n-1 .. 0 as copy[order[i]]; new_id_map[order[i]] = new id;
+   then the parents column and nodes.individual are rewritten through new_id_map *)
+Definition sort_individuals (t : tables) : res tables :=
+  if negb (check_refs t && check_inds t) then Err E_BAD_REF else
+  let inds := t_inds t in
+  do order <- topological_order inds;
+  let ids := rev order in
+  do rows <- mapM (get inds) ids;
+  do idmap <- fill_id_map ids 0 (repeat NULL (length inds));
+  do rows' <- mapM (fun r => do ps <- mapM (remap_id idmap) (i_parents r); Ok (ind_set_parents r ps)) rows;
+  do nodes' <- mapM (fun nd => do x <- remap_id idmap (n_ind nd); Ok (node_set_ind nd x)) (t_nodes t);
+  Ok (set_inds_nodes t rows' nodes').
+
+(* ---------------------------------------------------------------------- *)
 (* execution instance: stdlib merge sort                                   *)
 (* ---------------------------------------------------------------------- *)
 Lemma cmp3_total a b : cmp3 a b <= 0 \/ cmp3 b a <= 0.
@@ -792,3 +876,6 @@ Definition repair (Q : qsorts) (t : tables) : res tables :=
   do t3 <- py_sort Q 0 0 0 t2;
   do t4 <- build_index Q t3;
   compute_mutation_parents t4.
+
+Definition j_ind (r : individual) : J := JL [JZ (i_flags r); j_bytes (i_loc r); j_bytes (i_parents r); j_bytes (i_md r)].
+Definition j_inds_nodes (t : tables) : J := JL [JL (map j_ind (t_inds t)); j_bytes (map n_ind (t_nodes t))].
